@@ -1,5 +1,6 @@
-(* Proofs about the Cluster model (Cluster.v): version discipline and the submitter role.
-   Statements of the property theorems are in Props/C10.v. *)
+(* Proofs about the Cluster model (Cluster.v): version discipline, the submitter role, the CLI
+   call sites.  Statements of the property theorems are in Props/C10.v. *)
+Set Warnings "-unused-intro-pattern".
 From Coq Require Import List NArith Bool Arith Lia.
 From Jade Require Import Base Cluster.
 Import ListNotations.
@@ -573,8 +574,722 @@ Proof.
   - intros x X. inversion X; subst. exists 0%nat. eexists. split; [reflexivity|]. split; reflexivity.
 Qed.
 
+(* ---------- stale copies are rejected, all four files unchanged ---------- *)
+Definition writes_cfg (o : hop) : bool :=
+  match o with
+  | HPromote | HDemote | HMarkComplete | HMarkCanceled | HSerialize | HSerializeNL | HUpdate _ _ _ => true
+  | _ => false
+  end.
+Definition writes_js (o : hop) : bool :=
+  match o with HSerializeJobs | HSerializeJobsNL | HUpdate _ _ _ | HCompleteHpc _ => true | _ => false end.
+Definition cfg_stale (d : disk) (h : handle) : Prop := c_version (h_cfg h) <> d_cfg_vf d.
+Definition js_stale (d : disk) (h : handle) : Prop := exists j, h_js h = Some j /\ j_version j <> d_js_vf d.
+(* the operation did not take effect: an exception, a lock timeout, or "not promoted" *)
+Definition rejected (r : result) : bool :=
+  is_exn r || match r with RBlocked | RBool false => true | _ => false end.
+(* the operation's own precondition (checked by the code BEFORE the version compare) *)
+Definition precond (o : hop) (h : handle) : bool :=
+  match o with
+  | HPromote => negb (has_submitter h)
+  | HDemote => am_i_submitter h
+  | HMarkComplete => negb (c_complete (h_cfg h))
+  | HUpdate _ _ _ => match h_js h with Some _ => true | None => false end
+  | HCompleteHpc id => match h_js h with
+                       | Some j => match remove_first id (j_ids j) with Some _ => true | None => false end
+                       | None => false
+                       end
+  | _ => true
+  end.
+
+Lemma act_stale_cfg o d h : writes_cfg o = true -> cfg_stale d h ->
+  let '(r, d', h') := act o d h in
+  d' = d /\ rejected r = true /\ (precond o h = true -> r = RCfgMismatch).
+Proof.
+  intros Hw Hs. apply N.eqb_neq in Hs.
+  destruct o; simpl in Hw; try discriminate; simpl;
+    unfold promote, ser_cfg, chk_cfg, and_then; simpl.
+  - destruct (has_submitter h); simpl; [repeat split; auto; discriminate|]. rewrite Hs; simpl. auto.
+  - destruct (am_i_submitter h); simpl; [|repeat split; auto; discriminate]. rewrite Hs; simpl. auto.
+  - destruct (c_complete (h_cfg h)); simpl; [repeat split; auto; discriminate|]. rewrite Hs; simpl. auto.
+  - rewrite Hs; simpl. auto.
+  - rewrite Hs; simpl. auto.
+  - destruct (h_js h); simpl; [|repeat split; auto; discriminate]. rewrite Hs; simpl. auto.
+  - rewrite Hs; simpl. auto.
+Qed.
+
+Lemma act_stale_js o d h : writes_js o = true -> js_stale d h ->
+  let '(r, d', h') := act o d h in
+  d' = d /\ rejected r = true /\ (precond o h = true -> r = RCfgMismatch \/ r = RJsMismatch).
+Proof.
+  intros Hw [j [Ej Hs]]. apply N.eqb_neq in Hs.
+  destruct o; simpl in Hw; try discriminate; simpl;
+    unfold ser_js, chk_js, chk_cfg, and_then; simpl; rewrite ?Ej; simpl.
+  - rewrite Hs; simpl. auto.
+  - destruct (c_version (h_cfg h) =? d_cfg_vf d); simpl; [rewrite Hs; simpl|]; auto.
+  - destruct (remove_first id (j_ids j)); simpl; [rewrite Hs; simpl; auto|repeat split; auto; discriminate].
+  - rewrite Hs; simpl. auto.
+Qed.
+
+Lemma step_do_eq s i o h : nth_error (s_handles s) i = Some h ->
+  step s (Do i o) =
+  if locked o && s_wedged s then (RBlocked, s)
+  else let '(r, d', h') := act o (s_disk s) h in
+       (r, mkS d' (s_wedged s || (locked o && is_exn r)) (upd (s_handles s) i h')).
+Proof. intro H. simpl. rewrite H. reflexivity. Qed.
+
+Theorem stale_rejected : forall s i h o,
+  nth_error (s_handles s) i = Some h ->
+  (writes_cfg o = true /\ cfg_stale (s_disk s) h) \/ (writes_js o = true /\ js_stale (s_disk s) h) ->
+  let '(r, s') := step s (Do i o) in
+  s_disk s' = s_disk s /\ rejected r = true /\
+  (precond o h = true -> locked o && s_wedged s = false -> r = RCfgMismatch \/ r = RJsMismatch).
+Proof.
+  intros s i h o Hn Hst. rewrite (step_do_eq _ _ _ _ Hn).
+  destruct (locked o && s_wedged s); [repeat split; auto; discriminate|].
+  destruct Hst as [[Hw Hs]|[Hw Hs]].
+  - pose proof (act_stale_cfg o _ _ Hw Hs) as X. destruct (act o (s_disk s) h) as [[r d'] h'].
+    destruct X as [A [B C]]. simpl. auto.
+  - pose proof (act_stale_js o _ _ Hw Hs) as X. destruct (act o (s_disk s) h) as [[r d'] h'].
+    destruct X as [A [B C]]. simpl. auto.
+Qed.
+
+Lemma step_nl s i o h : nth_error (s_handles s) i = Some h -> locked o = false ->
+  step s (Do i o) = (fst (fst (act o (s_disk s) h)),
+                     mkS (snd (fst (act o (s_disk s) h))) (s_wedged s) (upd (s_handles s) i (snd (act o (s_disk s) h)))).
+Proof.
+  intros Hn Hl. rewrite (step_do_eq _ _ _ _ Hn), Hl. simpl.
+  destruct (act o (s_disk s) h) as [[r d'] h']. simpl. rewrite orb_false_r. reflexivity.
+Qed.
+
+(* prepare_for_resubmission as one call: a stale copy of either object => nothing is written *)
+Theorem prepare_stale_rejected : forall s i h v,
+  nth_error (s_handles s) i = Some h ->
+  cfg_stale (s_disk s) h \/ js_stale (s_disk s) h ->
+  let '(r, s') := prepare_resub s i v in
+  s_disk s' = s_disk s /\ is_exn r = true /\
+  (c_complete (h_cfg h) = true -> r = RCfgMismatch \/ r = RJsMismatch \/ (r = RAssertion /\ h_js h = None)).
+Proof.
+  intros s i h v Hn Hst. unfold prepare_resub.
+  rewrite (step_nl _ _ (HPrepMutate v) _ Hn eq_refl).
+  cbn [act].
+  destruct (c_complete (h_cfg h)) eqn:Ec; [|cbn; repeat split; auto; discriminate].
+  destruct (h_js h) as [j|] eqn:Ej; cbn [fst snd result_eqb negb].
+  2:{ cbn. repeat split; auto. }
+  set (h1 := h_with_cfg h (cfg_with_submitted (cfg_with_complete (h_cfg h) false) v)).
+  set (s1 := mkS (s_disk s) (s_wedged s) (upd (s_handles s) i h1)).
+  assert (Hn1 : nth_error (s_handles s1) i = Some h1) by (eapply nth_error_upd_eq; eauto).
+  rewrite (step_nl s1 _ HCheckCfgNL _ Hn1 eq_refl). cbn [act s_disk s1]. unfold chk_cfg. cbn [h1 h_with_cfg h_cfg cfg_with_submitted cfg_with_complete c_version].
+  destruct (c_version (h_cfg h) =? d_cfg_vf (s_disk s)) eqn:Ev; cbn [negb fst snd result_eqb].
+  2:{ cbn. repeat split; auto. }
+  match goal with |- context [step ?s2 (Do i HCheckJsNL)] =>
+    assert (Hn2 : nth_error (s_handles s2) i = Some h1) by (eapply nth_error_upd_eq; eauto);
+    rewrite (step_nl s2 _ HCheckJsNL _ Hn2 eq_refl) end.
+  cbn [act s_disk s1]. unfold chk_js. cbn [h1 h_with_cfg h_js]. rewrite Ej.
+  destruct (j_version j =? d_js_vf (s_disk s)) eqn:Evj; cbn [negb fst snd result_eqb].
+  2:{ cbn. repeat split; auto. }
+  exfalso. apply N.eqb_eq in Ev, Evj. destruct Hst as [X|[j' [X Y]]].
+  - apply X; exact Ev.
+  - rewrite Ej in X. inversion X; subst. apply Y; exact Evj.
+Qed.
+
+(* ---------- no lost update ---------- *)
+Lemma cfg_eqb_refl c : cfg_eqb c c = true.
+Proof.
+  destruct c as [v s a b n]; unfold cfg_eqb; simpl.
+  rewrite !N.eqb_refl, !Bool.eqb_reflx. destruct s; simpl; rewrite ?N.eqb_refl; reflexivity.
+Qed.
+Lemma list_N_eqb_refl l : list_eqb N.eqb l l = true.
+Proof. induction l; simpl; auto. rewrite N.eqb_refl; auto. Qed.
+Lemma js_eqb_refl j : js_eqb j j = true.
+Proof. destruct j; unfold js_eqb; simpl. rewrite !N.eqb_refl, list_N_eqb_refl. reflexivity. Qed.
+
+Definition cfg_changed (d d' : disk) : bool :=
+  negb (cfg_eqb (d_cfg d) (d_cfg d') && (d_cfg_vf d =? d_cfg_vf d')).
+Definition js_changed (d d' : disk) : bool :=
+  negb (js_eqb (d_js d) (d_js d') && (d_js_vf d =? d_js_vf d')).
+
+Lemma cfg_changed_cases d d' : cfg_same d d' \/ cfg_next d d' ->
+  (cfg_changed d d' = false /\ cfg_same d d') \/ (cfg_changed d d' = true /\ cfg_next d d').
+Proof.
+  unfold cfg_changed. intros [[A B]|[A B]].
+  - left. rewrite A, B, cfg_eqb_refl, N.eqb_refl. split; [reflexivity|split; auto].
+  - right. split; [|split; auto]. rewrite A.
+    replace (d_cfg_vf d =? d_cfg_vf d + 1) with false by (symmetry; apply N.eqb_neq; lia).
+    rewrite andb_false_r. reflexivity.
+Qed.
+Lemma js_changed_cases d d' : js_same d d' \/ js_next d d' ->
+  (js_changed d d' = false /\ js_same d d') \/ (js_changed d d' = true /\ js_next d d').
+Proof.
+  unfold js_changed. intros [[A B]|[A B]].
+  - left. rewrite A, B, js_eqb_refl, N.eqb_refl. split; [reflexivity|split; auto].
+  - right. split; [|split; auto]. rewrite A.
+    replace (d_js_vf d =? d_js_vf d + 1) with false by (symmetry; apply N.eqb_neq; lia).
+    rewrite andb_false_r. reflexivity.
+Qed.
+
+Lemma step_dstep s o : sinv s -> dstep_ok (s_disk s) (s_disk (snd (step s o))).
+Proof.
+  intros [Hc Hl]. destruct o as [host p j | i o |].
+  - rewrite step_load_eq. destruct (s_wedged s); [apply dstep_ok_refl|].
+    destruct (load_act p (s_disk s) (fresh_handle host (s_disk s))) as [[r d1] h1] eqn:E.
+    pose proof (load_act_post _ _ _ _ _ _ Hc (fresh_hinv host _ Hc) E) as [A [B _]].
+    destruct (is_exn r); simpl; exact B.
+  - simpl. destruct (nth_error (s_handles s) i) as [h|] eqn:En; [|apply dstep_ok_refl].
+    destruct (locked o && s_wedged s); [apply dstep_ok_refl|].
+    destruct (act o (s_disk s) h) as [[r d'] h'] eqn:E. simpl.
+    pose proof (act_post _ _ _ _ _ _ Hc (Forall_nth _ _ _ _ Hl En) E) as [A [B _]]. exact B.
+  - apply dstep_ok_refl.
+Qed.
+
+(* every write that changes an object is made from the latest version, installs the writer's copy
+   with the next version, and keeps object and version file in step *)
+Theorem no_lost_update_step : forall s i o h, sinv s -> nth_error (s_handles s) i = Some h ->
+  let d := s_disk s in
+  let s' := snd (step s (Do i o)) in
+  let d' := s_disk s' in
+  consistent d' /\
+  (cfg_changed d d' = true ->
+     c_version (h_cfg h) = d_cfg_vf d /\ d_cfg_vf d' = d_cfg_vf d + 1 /\
+     exists h', nth_error (s_handles s') i = Some h' /\ d_cfg d' = h_cfg h') /\
+  (js_changed d d' = true ->
+     (exists j, h_js h = Some j /\ j_version j = d_js_vf d) /\ d_js_vf d' = d_js_vf d + 1 /\
+     exists h', nth_error (s_handles s') i = Some h' /\ h_js h' = Some (d_js d')).
+Proof.
+  intros s i o h [Hc Hl] Hn. cbv zeta. rewrite (step_do_eq _ _ _ _ Hn).
+  destruct (locked o && s_wedged s).
+  { simpl. split; [exact Hc|]. unfold cfg_changed, js_changed.
+    rewrite cfg_eqb_refl, js_eqb_refl, !N.eqb_refl. simpl. split; discriminate. }
+  destruct (act o (s_disk s) h) as [[r d'] h'] eqn:E. simpl.
+  pose proof (act_post _ _ _ _ _ _ Hc (Forall_nth _ _ _ _ Hl Hn) E) as [A [[B1 B2] [C [D [F [G _]]]]]].
+  split; [exact A|]. split.
+  - intro X. destruct (cfg_changed_cases _ _ B1) as [[Y _]|[_ [Y1 Y2]]]; [congruence|].
+    destruct F as [[F1 F2]|[F1 F2]]; [exfalso; lia|].
+    split; [exact F1|]. split; [exact Y1|]. exists h'. split; [eapply nth_error_upd_eq; eauto|exact F2].
+  - intro X. destruct (js_changed_cases _ _ B2) as [[Y _]|[_ [Y1 Y2]]]; [congruence|].
+    destruct G as [[G1 G2]|[j [G1 [G2 G3]]]]; [exfalso; lia|].
+    split; [exists j; auto|]. split; [exact Y1|]. exists h'. split; [eapply nth_error_upd_eq; eauto|exact G3].
+Qed.
+
+Fixpoint count_cfg_writes (s : state) (ops : list op) : N :=
+  match ops with
+  | [] => 0
+  | o :: r => let s' := snd (step s o) in
+              (if cfg_changed (s_disk s) (s_disk s') then 1 else 0) + count_cfg_writes s' r
+  end.
+Fixpoint count_js_writes (s : state) (ops : list op) : N :=
+  match ops with
+  | [] => 0
+  | o :: r => let s' := snd (step s o) in
+              (if js_changed (s_disk s) (s_disk s') then 1 else 0) + count_js_writes s' r
+  end.
+
+(* the version files count the changing writes: versions go up by exactly one per changing write *)
+Theorem versions_count_writes : forall ops s, sinv s ->
+  d_cfg_vf (s_disk (run s ops)) = d_cfg_vf (s_disk s) + count_cfg_writes s ops /\
+  d_js_vf (s_disk (run s ops)) = d_js_vf (s_disk s) + count_js_writes s ops /\
+  consistent (s_disk (run s ops)).
+Proof.
+  induction ops as [|o ops IH]; intros s Hs; simpl.
+  - rewrite !N.add_0_r. destruct Hs; auto.
+  - destruct (IH _ (step_sinv s o Hs)) as [A [B C]]. rewrite A, B.
+    destruct (step_dstep s o Hs) as [D1 D2].
+    destruct (cfg_changed_cases _ _ D1) as [[-> [_ X]]|[-> [X _]]];
+      destruct (js_changed_cases _ _ D2) as [[-> [_ Y]]|[-> [Y _]]]; rewrite X, Y; splits; auto; lia.
+Qed.
+
+(* a copy carrying the current version has the current submitter field, and what its handle wrote
+   last is what the file holds *)
+Theorem fresh_copy : forall host ops i h,
+  let s := run (create host) ops in
+  nth_error (s_handles s) i = Some h ->
+  c_version (h_cfg h) <= d_cfg_vf (s_disk s) /\
+  (c_version (h_cfg h) = d_cfg_vf (s_disk s) ->
+     c_submitter (h_cfg h) = c_submitter (d_cfg (s_disk s)) /\
+     forall c, h_hash h = Some c -> c = d_cfg (s_disk s)).
+Proof.
+  intros host ops i h s Hn. destruct (run_sinv ops _ (create_sinv host)) as [Hc Hl]. subst s.
+  destruct (Forall_nth _ _ _ _ Hl Hn) as [[A [B C]] D]. split; [exact A|].
+  intro E. split; [apply D; exact E|]. intros c Hq. destruct (B c Hq) as [B1 B2]. apply B2. rewrite B1. exact E.
+Qed.
+
+(* ---------- promotion is refused while the role is held ---------- *)
+Lemma ser_cfg_res d h r d' h' : ser_cfg d h = (r, d', h') -> r = ROk \/ (r = RCfgMismatch /\ d' = d /\ h' = h).
+Proof.
+  unfold ser_cfg, chk_cfg, write_cfg, and_then.
+  destruct (negb (c_version (h_cfg h) =? d_cfg_vf d)); [intro H; injection H as <- <- <-; auto|].
+  destruct (option_eqb cfg_eqb (Some (h_cfg h)) (h_hash h)); intro H; injection H as <- _ _; auto.
+Qed.
+
+Lemma promote_unchanged d h r d' h' : promote d h = (r, d', h') -> r <> RBool true -> d' = d.
+Proof.
+  unfold promote. intros H N. destruct (has_submitter h); [congruence|].
+  destruct (ser_cfg d (h_with_cfg h (cfg_with_submitter (h_cfg h) (Some (h_host h))))) as [[r1 d1] h1] eqn:E.
+  destruct (ser_cfg_res _ _ _ _ _ E) as [->|[-> [-> ->]]].
+  - injection H as <- _ _. exfalso; apply N; reflexivity.
+  - injection H as _ <- _. reflexivity.
+Qed.
+
+Theorem promote_refused : forall s, sinv s -> role_inv s ->
+  forall k hk, nth_error (s_handles s) k = Some hk -> h_promoted hk = true ->
+  (forall host j, s_wedged s = false ->
+     step s (Load host true j) =
+     (RLoaded (length (s_handles s)) false,
+      mkS (s_disk s) false (s_handles s ++ [if j then h_with_js (fresh_handle host (s_disk s)) (Some (d_js (s_disk s)))
+                                            else fresh_handle host (s_disk s)]))) /\
+  (forall i, fst (step s (Do i HPromote)) <> RBool true /\ s_disk (snd (step s (Do i HPromote))) = s_disk s).
+Proof.
+  intros s [Hc Hl] [H1 _] k hk Hk Hp. pose proof (H1 k hk Hk Hp) as Hsub. split.
+  - intros host j Hw. rewrite step_load_eq, Hw. unfold load_act, promote, has_submitter, fresh_handle; simpl.
+    rewrite Hsub. simpl. destruct j; reflexivity.
+  - intro i. simpl. destruct (nth_error (s_handles s) i) as [h|] eqn:En; [|split; [discriminate|reflexivity]].
+    simpl. destruct (s_wedged s); [split; [discriminate|reflexivity]|].
+    destruct (promote (s_disk s) h) as [[r d'] h'] eqn:E. simpl.
+    pose proof (act_post HPromote _ _ _ _ _ Hc (Forall_nth _ _ _ _ Hl En) E) as [_ [_ [_ [_ [_ [_ [F _]]]]]]].
+    assert (N : r <> RBool true).
+    { intros ->. simpl in F. destruct F as [F _]. congruence. }
+    split; [exact N|]. eapply promote_unchanged; eauto.
+Qed.
+
+(* a handle that is not promoted and whose host differs from the submitter's cannot demote: the
+   code itself (am_i_submitter, a comparison of host names) enforces the protocol across hosts *)
+Theorem cross_host_demote_rejected : forall s i h, sinv s ->
+  nth_error (s_handles s) i = Some h ->
+  c_submitter (d_cfg (s_disk s)) <> Some (h_host h) ->
+  fst (step s (Do i HDemote)) <> ROk /\ s_disk (snd (step s (Do i HDemote))) = s_disk s.
+Proof.
+  intros s i h [Hc Hl] Hn Hne. rewrite (step_do_eq _ _ _ _ Hn). cbn [locked andb].
+  destruct (s_wedged s); [split; [discriminate|reflexivity]|].
+  destruct (act HDemote (s_disk s) h) as [[r d'] h'] eqn:E.
+  pose proof (act_post HDemote _ _ _ _ _ Hc (Forall_nth _ _ _ _ Hl Hn) E) as [_ [_ [_ [_ [_ [_ [F [_ I]]]]]]]].
+  assert (N : r <> ROk). { intros ->. simpl in F. destruct F as [F _]. congruence. }
+  simpl. split; [exact N|].
+  simpl in E. destruct (am_i_submitter h).
+  - destruct (ser_cfg (s_disk s) (h_with_cfg h (cfg_with_submitter (h_cfg h) None))) as [[r1 d1] h1] eqn:E1.
+    destruct (ser_cfg_res _ _ _ _ _ E1) as [->|[-> [-> ->]]].
+    + injection E as <- _ _. exfalso; apply N; reflexivity.
+    + injection E as _ <- _. reflexivity.
+  - injection E as _ <- _. reflexivity.
+Qed.
+
+(* ---------- successful promotions and demotions alternate ---------- *)
+Definition sub_set (s : state) : bool :=
+  match c_submitter (d_cfg (s_disk s)) with Some _ => true | None => false end.
+Definition ev_promote (e : op * result) : bool :=
+  match e with
+  | (Load _ _ _, RLoaded _ true) => true
+  | (Do _ HPromote, RBool true) => true
+  | _ => false
+  end.
+Definition ev_demote (e : op * result) : bool :=
+  match e with (Do _ HDemote, ROk) => true | _ => false end.
+
+Fixpoint alternates (held : bool) (tr : list (op * result)) : bool :=
+  match tr with
+  | [] => true
+  | e :: r => if ev_promote e then negb held && alternates true r
+              else if ev_demote e then held && alternates false r
+              else alternates held r
+  end.
+
+Lemma step_sub s o : sinv s ->
+  let r := fst (step s o) in let s' := snd (step s o) in
+  (ev_promote (o, r) = true -> sub_set s = false /\ sub_set s' = true) /\
+  (ev_demote (o, r) = true -> sub_set s = true /\ sub_set s' = false) /\
+  (ev_promote (o, r) = false -> ev_demote (o, r) = false -> sub_set s' = sub_set s).
+Proof.
+  intros [Hc Hl]. cbv zeta. unfold sub_set. destruct o as [host p j | i o |].
+  - rewrite step_load_eq. destruct (s_wedged s); [simpl; splits; auto; discriminate|].
+    destruct (load_act p (s_disk s) (fresh_handle host (s_disk s))) as [[r d1] h1] eqn:E.
+    pose proof (load_act_post _ _ _ _ _ _ Hc (fresh_hinv host _ Hc) E) as [_ [_ [_ [_ [_ [_ [F [G I]]]]]]]].
+    destruct (is_exn r) eqn:Ex.
+    + rewrite (I eq_refl). destruct r; simpl in *; try discriminate; splits; auto; discriminate.
+    + cbn [fst snd s_disk]. assert (Hp : h_promoted (if j then h_with_js h1 (Some (d_js d1)) else h1) = h_promoted h1)
+        by (destruct j; reflexivity). rewrite Hp, G. simpl in *.
+      destruct r; try destruct b; simpl in *; try discriminate;
+        try (destruct F as [-> ->]); try rewrite F; splits; auto; try discriminate.
+  - destruct (nth_error (s_handles s) i) as [h|] eqn:En.
+    2:{ simpl. rewrite En. simpl. destruct o; splits; auto; discriminate. }
+    rewrite (step_do_eq _ _ _ _ En).
+    destruct (locked o && s_wedged s). { simpl. destruct o; splits; auto; discriminate. }
+    destruct (act o (s_disk s) h) as [[r d'] h'] eqn:E. cbn [fst snd s_disk].
+    pose proof (act_post _ _ _ _ _ _ Hc (Forall_nth _ _ _ _ Hl En) E) as [_ [_ [_ [_ [_ [_ [F _]]]]]]].
+    destruct o; simpl in F; try (rewrite F; simpl; splits; auto; discriminate);
+      destruct r; try destruct b; simpl in F; try (destruct F as [-> ->]); try rewrite F; simpl;
+      splits; auto; discriminate.
+  - simpl. splits; auto; discriminate.
+Qed.
+
+Lemma alternates_cons held e r : alternates held (e :: r) =
+  if ev_promote e then negb held && alternates true r
+  else if ev_demote e then held && alternates false r else alternates held r.
+Proof. reflexivity. Qed.
+
+Lemma trace_cons s o ops : trace s (o :: ops) = (o, fst (step s o)) :: trace (snd (step s o)) ops.
+Proof. simpl. destruct (step s o); reflexivity. Qed.
+
+Theorem alternation : forall ops s, sinv s -> alternates (sub_set s) (trace s ops) = true.
+Proof.
+  induction ops as [|o ops IH]; intros s Hs; [reflexivity|].
+  rewrite trace_cons, alternates_cons.
+  pose proof (step_sub s o Hs) as [A [B C]]. pose proof (step_sinv s o Hs) as Hs'.
+  destruct (ev_promote (o, fst (step s o))) eqn:Ep.
+  - destruct (A eq_refl) as [-> X]. pose proof (IH _ Hs') as Y. rewrite X in Y. simpl. exact Y.
+  - destruct (ev_demote (o, fst (step s o))) eqn:Ed.
+    + destruct (B eq_refl) as [-> X]. pose proof (IH _ Hs') as Y. rewrite X in Y. simpl. exact Y.
+    + rewrite <- (C eq_refl eq_refl). apply IH; auto.
+Qed.
+
+Lemma create_sub_set host : sub_set (create host) = true.
+Proof. reflexivity. Qed.
+
+(* ---------- the CLI call sites keep the protocol ---------- *)
+Lemma neutral_step p e : neutral e = true -> local_step p e = Some p.
+Proof. destruct e as [b|o r]; simpl; try discriminate. destruct o; simpl; try discriminate; auto. Qed.
+
+Lemma demote_exit_ok evs : accepts (PDemote p_exit) evs = true -> local_ok true evs = true.
+Proof.
+  destruct evs as [|e r]; simpl; auto. destruct e as [b|o x]; try discriminate.
+  destruct o; try discriminate. destruct r; [|discriminate]. intros _. destruct x; reflexivity.
+Qed.
+
+Lemma any_demote_ok evs : accepts (PAny (PDemote p_exit)) evs = true -> local_ok true evs = true.
+Proof.
+  induction evs as [|e r IH]; auto. intro H.
+  change (accepts (PAny (PDemote p_exit)) (e :: r))
+    with ((neutral e && accepts (PAny (PDemote p_exit)) r) || accepts (PDemote p_exit) (e :: r)) in H.
+  apply orb_prop in H. destruct H as [H|H].
+  - apply andb_prop in H. destruct H as [N H]. simpl. rewrite (neutral_step _ _ N). auto.
+  - apply demote_exit_ok; auto.
+Qed.
+
+Lemma any_done_ok p evs : accepts (PAny PDone) evs = true -> local_ok p evs = true.
+Proof.
+  induction evs as [|e r IH]; auto. intro H.
+  change (accepts (PAny PDone) (e :: r)) with ((neutral e && accepts (PAny PDone) r) || false) in H.
+  rewrite orb_false_r in H. apply andb_prop in H. destruct H as [N H]. simpl. rewrite (neutral_step _ _ N). auto.
+Qed.
+
+Lemma done_ok p evs : accepts PDone evs = true -> local_ok p evs = true.
+Proof. destruct evs; simpl; auto; discriminate. Qed.
+
+Ltac loaded_prog :=
+  let evs := fresh "evs" in let H := fresh "H" in
+  intros evs H; destruct evs as [|[b|o x] r]; simpl in *; auto; try discriminate;
+  destruct b; simpl in *;
+  repeat match goal with
+         | H : (_ || _) = true |- _ => apply orb_prop in H; destruct H as [H|H]
+         end;
+  auto using demote_exit_ok, any_demote_ok, any_done_ok, done_ok.
+
+Theorem try_submit_ok : forall evs, accepts prog_try_submit evs = true -> local_ok false evs = true.
+Proof. loaded_prog. Qed.
+Theorem cancel_ok : forall evs, accepts prog_cancel evs = true -> local_ok false evs = true.
+Proof. loaded_prog. Qed.
+Theorem resubmit_ok : forall evs, accepts prog_resubmit evs = true -> local_ok false evs = true.
+Proof. loaded_prog. Qed.
+Theorem complete_hpc_ok : forall evs, accepts prog_complete_hpc evs = true -> local_ok false evs = true.
+Proof. loaded_prog. Qed.
+Theorem reader_ok : forall evs, accepts prog_reader evs = true -> local_ok false evs = true.
+Proof. loaded_prog. Qed.
+Theorem run_submit_ok : forall evs, accepts prog_run_submit evs = true -> local_ok true evs = true.
+Proof. exact any_demote_ok. Qed.
+
+Theorem cli_programs_ok : forall p, In p cli_programs ->
+  forall evs, accepts p evs = true -> local_ok false evs = true.
+Proof.
+  intros p Hin. simpl in Hin.
+  destruct Hin as [<-|[<-|[<-|[<-|[<-|[]]]]]];
+    auto using try_submit_ok, cancel_ok, resubmit_ok, complete_hpc_ok, reader_ok.
+Qed.
+
+(* the old resubmit_jobs (D5) does not: not promoted, submission incomplete, demote *)
+Lemma resubmit_old_refuted : exists evs, accepts prog_resubmit_old evs = true /\ local_ok false evs = false.
+Proof. exists [LLoaded false; LOp HDemote ROk]. split; reflexivity. Qed.
+
+(* --- from the local bookkeeping to the global protocol predicate --- *)
+Lemma bit_of_upd_eq l d w i h h' : nth_error l i = Some h -> bit_of (mkS d w (upd l i h')) i = h_promoted h'.
+Proof. intro H. unfold bit_of; simpl. rewrite (nth_error_upd_eq _ _ _ _ H). reflexivity. Qed.
+
+Lemma local_step_prom p o r b : r <> RNoHandle -> local_step p (LOp o r) = Some b -> b = prom_trans o r p.
+Proof.
+  intros N H. destruct o; simpl in *; try (inversion H; reflexivity).
+  - destruct r; try destruct b0; simpl in *; inversion H; reflexivity.
+  - destruct r; simpl in *; try congruence; destruct p; inversion H; reflexivity.
+Qed.
+
+Lemma act_not_nohandle o d h : fst (fst (act o d h)) <> RNoHandle.
+Proof.
+  assert (S : forall d h, fst (fst (ser_cfg d h)) <> RNoHandle).
+  { intros d0 h0. destruct (ser_cfg d0 h0) as [[r d'] h'] eqn:E.
+    destruct (ser_cfg_res _ _ _ _ _ E) as [->|[-> _]]; simpl; discriminate. }
+  assert (J : forall d h, fst (fst (ser_js d h)) <> RNoHandle).
+  { intros d0 h0. unfold ser_js, chk_js, write_js, and_then. destruct (h_js h0) eqn:Ej; simpl; [|discriminate].
+    destruct (negb _); simpl; [discriminate|]. rewrite Ej. simpl. discriminate. }
+  destruct o; simpl.
+  - unfold promote. destruct (has_submitter h); simpl; [discriminate|].
+    specialize (S d (h_with_cfg h (cfg_with_submitter (h_cfg h) (Some (h_host h))))).
+    destruct (ser_cfg _ _) as [[r d'] h']. simpl in *. destruct r; simpl; congruence.
+  - destruct (am_i_submitter h); simpl; [|discriminate].
+    specialize (S d (h_with_cfg h (cfg_with_submitter (h_cfg h) None))).
+    destruct (ser_cfg _ _) as [[r d'] h']. simpl in *. destruct r; simpl; congruence.
+  - destruct (c_complete (h_cfg h)); simpl; [discriminate|apply S].
+  - apply S.
+  - apply S.
+  - apply J.
+  - destruct (h_js h); simpl; [|discriminate]. unfold and_then at 1. unfold chk_cfg. simpl.
+    destruct (negb _); simpl; [discriminate|]. unfold and_then at 1. unfold chk_js. simpl.
+    destruct (negb _); simpl; [discriminate|].
+    match goal with |- context [ser_cfg ?a ?b] => specialize (S a b); destruct (ser_cfg a b) as [[r d'] h'] end.
+    simpl in *. unfold and_then. destruct r; simpl; try congruence; try apply J.
+  - destruct (h_js h); simpl; [|discriminate]. destruct (remove_first id (j_ids j)); simpl; [apply J|discriminate].
+  - discriminate.
+  - destruct (c_complete (h_cfg h)); [destruct (h_js h)|]; simpl; discriminate.
+  - unfold chk_cfg. destruct (negb _); simpl; discriminate.
+  - unfold chk_js. destruct (h_js h); [destruct (negb _)|]; simpl; discriminate.
+  - apply S.
+  - apply J.
+Qed.
+
+Lemma act_not_blocked o d h : fst (fst (act o d h)) <> RBlocked.
+Proof.
+  assert (S : forall d h, fst (fst (ser_cfg d h)) <> RBlocked).
+  { intros d0 h0. destruct (ser_cfg d0 h0) as [[r d'] h'] eqn:E.
+    destruct (ser_cfg_res _ _ _ _ _ E) as [->|[-> _]]; simpl; discriminate. }
+  assert (J : forall d h, fst (fst (ser_js d h)) <> RBlocked).
+  { intros d0 h0. unfold ser_js, chk_js, write_js, and_then. destruct (h_js h0) eqn:Ej; simpl; [|discriminate].
+    destruct (negb _); simpl; [discriminate|]. rewrite Ej. simpl. discriminate. }
+  destruct o; simpl.
+  - unfold promote. destruct (has_submitter h); simpl; [discriminate|].
+    specialize (S d (h_with_cfg h (cfg_with_submitter (h_cfg h) (Some (h_host h))))).
+    destruct (ser_cfg _ _) as [[r d'] h']. simpl in *. destruct r; simpl; congruence.
+  - destruct (am_i_submitter h); simpl; [|discriminate].
+    specialize (S d (h_with_cfg h (cfg_with_submitter (h_cfg h) None))).
+    destruct (ser_cfg _ _) as [[r d'] h']. simpl in *. destruct r; simpl; congruence.
+  - destruct (c_complete (h_cfg h)); simpl; [discriminate|apply S].
+  - apply S.
+  - apply S.
+  - apply J.
+  - destruct (h_js h); simpl; [|discriminate]. unfold and_then at 1. unfold chk_cfg. simpl.
+    destruct (negb _); simpl; [discriminate|]. unfold and_then at 1. unfold chk_js. simpl.
+    destruct (negb _); simpl; [discriminate|].
+    match goal with |- context [ser_cfg ?a ?b] => specialize (S a b); destruct (ser_cfg a b) as [[r d'] h'] end.
+    simpl in *. unfold and_then. destruct r; simpl; try congruence; try apply J.
+  - destruct (h_js h); simpl; [|discriminate]. destruct (remove_first id (j_ids j)); simpl; [apply J|discriminate].
+  - discriminate.
+  - destruct (c_complete (h_cfg h)); [destruct (h_js h)|]; simpl; discriminate.
+  - unfold chk_cfg. destruct (negb _); simpl; discriminate.
+  - unfold chk_js. destruct (h_js h); [destruct (negb _)|]; simpl; discriminate.
+  - apply S.
+  - apply J.
+Qed.
+
+Lemma bit_step s o : sinv s ->
+  let r := fst (step s o) in let s' := snd (step s o) in
+  forall i,
+  (owner (o, r) = Some i -> forall b, local_step (bit_of s i) (to_local (o, r)) = Some b -> bit_of s' i = b) /\
+  (owner (o, r) <> Some i -> bit_of s' i = bit_of s i).
+Proof.
+  intros [Hc Hl]. cbv zeta. destruct o as [host p j | k o |]; intro i.
+  - rewrite step_load_eq. destruct (s_wedged s); [simpl; split; [discriminate|auto]|].
+    destruct (load_act p (s_disk s) (fresh_handle host (s_disk s))) as [[r d1] h1] eqn:E.
+    destruct (is_exn r) eqn:Ex.
+    + cbn [fst snd]. destruct r; simpl in Ex; try discriminate; (split; [discriminate|auto]).
+    + cbn [fst snd owner to_local]. split.
+      * intros X b Hb. inversion X; subst i. simpl in Hb. inversion Hb; subst b.
+        unfold bit_of; simpl. rewrite nth_error_app2, Nat.sub_diag; auto.
+      * intro X. unfold bit_of; simpl.
+        destruct (Nat.lt_ge_cases i (length (s_handles s))) as [L|L].
+        -- rewrite nth_error_app1; auto.
+        -- assert (i <> length (s_handles s)) by congruence.
+           replace (nth_error (s_handles s ++ _) i) with (@None handle).
+           ++ replace (nth_error (s_handles s) i) with (@None handle); auto.
+              symmetry; apply nth_error_None; auto.
+           ++ symmetry; apply nth_error_None. rewrite app_length; simpl. lia.
+  - destruct (nth_error (s_handles s) k) as [h|] eqn:En.
+    2:{ simpl. rewrite En. simpl. split; auto. intros X b Hb. inversion X; subst i.
+        destruct o; simpl in Hb; inversion Hb; reflexivity. }
+    rewrite (step_do_eq _ _ _ _ En).
+    destruct (locked o && s_wedged s).
+    { cbn [fst snd owner to_local]. split; auto. intros X b Hb. inversion X; subst i.
+      destruct o; simpl in Hb; try (inversion Hb; reflexivity).
+      destruct (bit_of s k); inversion Hb; reflexivity. }
+    pose proof (act_not_nohandle o (s_disk s) h) as NH.
+    destruct (act o (s_disk s) h) as [[r d'] h'] eqn:E. cbn [fst snd owner to_local] in *.
+    pose proof (act_post _ _ _ _ _ _ Hc (Forall_nth _ _ _ _ Hl En) E) as [_ [_ [_ [_ [_ [_ [_ [G _]]]]]]]].
+    split.
+    + intros X b Hb. inversion X; subst i. rewrite (bit_of_upd_eq _ _ _ _ _ _ En), G.
+      rewrite (local_step_prom _ _ _ _ NH Hb). unfold bit_of. rewrite En. reflexivity.
+    + intro X. assert (k <> i) by congruence. unfold bit_of; simpl. rewrite nth_error_upd_neq; auto.
+  - simpl. split; [discriminate|auto].
+Qed.
+
+Lemma demote_not_nohandle s i h : nth_error (s_handles s) i = Some h -> fst (step s (Do i HDemote)) <> RNoHandle.
+Proof.
+  intro En. rewrite (step_do_eq _ _ _ _ En). destruct (locked HDemote && s_wedged s); [discriminate|].
+  pose proof (act_not_nohandle HDemote (s_disk s) h). destruct (act HDemote (s_disk s) h) as [[r d'] h']. exact H.
+Qed.
+
+Theorem protocol_from_local : forall ops s, sinv s ->
+  (forall i, local_ok (bit_of s i) (events_of i (trace s ops)) = true) ->
+  protocol_ok s ops = true.
+Proof.
+  induction ops as [|o ops IH]; intros s Hs Hloc; simpl; auto.
+  pose proof (bit_step s o Hs) as Hb. cbv zeta in Hb.
+  assert (Htr : forall i, events_of i (trace s (o :: ops)) =
+                 match owner (o, fst (step s o)) with
+                 | Some k => if Nat.eqb k i then to_local (o, fst (step s o)) :: events_of i (trace (snd (step s o)) ops)
+                             else events_of i (trace (snd (step s o)) ops)
+                 | None => events_of i (trace (snd (step s o)) ops)
+                 end).
+  { intro i. simpl. destruct (step s o) as [r s']. reflexivity. }
+  apply andb_true_intro. split.
+  - destruct o as [| i ho |]; simpl; auto. destruct ho; auto.
+    destruct (nth_error (s_handles s) i) as [h|] eqn:En; auto.
+    specialize (Hloc i). rewrite Htr in Hloc. cbn [owner] in Hloc. rewrite Nat.eqb_refl in Hloc.
+    cbn [to_local local_ok] in Hloc.
+    pose proof (demote_not_nohandle s i h En) as NH.
+    unfold bit_of in Hloc. rewrite En in Hloc.
+    destruct (h_promoted h); auto.
+    destruct (fst (step s (Do i HDemote))); simpl in Hloc; congruence.
+  - apply IH; [apply step_sinv; auto|]. intro i. specialize (Hloc i). rewrite Htr in Hloc.
+    destruct (Hb i) as [B1 B2].
+    destruct (owner (o, fst (step s o))) as [k|] eqn:Eo.
+    + destruct (Nat.eqb k i) eqn:Ek.
+      * apply Nat.eqb_eq in Ek. subst k. cbn [local_ok] in Hloc.
+        destruct (local_step (bit_of s i) (to_local (o, fst (step s o)))) as [b|] eqn:El; [|discriminate].
+        rewrite (B1 eq_refl b eq_refl). exact Hloc.
+      * apply Nat.eqb_neq in Ek. rewrite B2; [exact Hloc|congruence].
+    + rewrite B2; [exact Hloc|congruence].
+Qed.
+
+(* every handle's life is a run of one of the CLI programs => the protocol hypothesis holds *)
+Theorem callsites_protocol : forall host ops,
+  accepts prog_run_submit (events_of 0%nat (trace (create host) ops)) = true ->
+  (forall i, i <> 0%nat -> exists p, In p cli_programs /\ accepts p (events_of i (trace (create host) ops)) = true) ->
+  protocol_ok (create host) ops = true.
+Proof.
+  intros host ops H0 Hi. apply protocol_from_local; [apply create_sinv|].
+  intro i. destruct i as [|i].
+  - replace (bit_of (create host) 0%nat) with true by reflexivity. apply run_submit_ok; exact H0.
+  - destruct (Hi (S i)) as [p [Hin Hacc]]; [discriminate|].
+    replace (bit_of (create host) (S i)) with false by (unfold bit_of; simpl; destruct i; reflexivity). eapply cli_programs_ok; eauto.
+Qed.
+
+(* ---------- statements over all reachable states (any sequence after Cluster.create) ---------- *)
+Lemma reach_sinv host ops : sinv (run (create host) ops).
+Proof. apply run_sinv, create_sinv. Qed.
+
 Theorem single_holder : forall host ops,
   protocol_ok (create host) ops = true -> role_inv (run (create host) ops).
+Proof. intros host ops Hp. apply run_role; auto using create_sinv, create_role. Qed.
+
+Theorem no_lost_update_reach : forall host ops i o h,
+  let s := run (create host) ops in
+  nth_error (s_handles s) i = Some h ->
+  let d := s_disk s in
+  let s' := snd (step s (Do i o)) in
+  let d' := s_disk s' in
+  consistent d' /\
+  (cfg_changed d d' = true ->
+     c_version (h_cfg h) = d_cfg_vf d /\ d_cfg_vf d' = d_cfg_vf d + 1 /\
+     exists h', nth_error (s_handles s') i = Some h' /\ d_cfg d' = h_cfg h') /\
+  (js_changed d d' = true ->
+     (exists j, h_js h = Some j /\ j_version j = d_js_vf d) /\ d_js_vf d' = d_js_vf d + 1 /\
+     exists h', nth_error (s_handles s') i = Some h' /\ h_js h' = Some (d_js d')).
+Proof. intros host ops i o h s Hn. apply no_lost_update_step; auto. apply reach_sinv. Qed.
+
+Theorem versions_count_writes_reach : forall host ops,
+  let s0 := create host in
+  d_cfg_vf (s_disk (run s0 ops)) = 1 + count_cfg_writes s0 ops /\
+  d_js_vf (s_disk (run s0 ops)) = 1 + count_js_writes s0 ops /\
+  c_version (d_cfg (s_disk (run s0 ops))) = d_cfg_vf (s_disk (run s0 ops)) /\
+  j_version (d_js (s_disk (run s0 ops))) = d_js_vf (s_disk (run s0 ops)).
 Proof.
-  intros host ops Hp. apply run_role; auto using create_sinv, create_role.
+  intros host ops s0. destruct (versions_count_writes ops s0 (create_sinv host)) as [A [B [C D]]].
+  repeat split; auto.
 Qed.
+
+(* an operation that raised (or timed out on the lock marker) left all four files unchanged *)
+Definition failed (r : result) : bool := is_exn r || match r with RBlocked => true | _ => false end.
+
+Theorem failed_unchanged : forall host ops o,
+  let s := run (create host) ops in
+  failed (fst (step s o)) = true -> s_disk (snd (step s o)) = s_disk s.
+Proof.
+  intros host ops o s. pose proof (reach_sinv host ops) as [Hc Hl]. fold s in Hc, Hl.
+  destruct o as [h0 p j | i o |].
+  - rewrite step_load_eq. destruct (s_wedged s); [reflexivity|].
+    destruct (load_act p (s_disk s) (fresh_handle h0 (s_disk s))) as [[r d1] h1] eqn:E.
+    pose proof (load_act_post _ _ _ _ _ _ Hc (fresh_hinv h0 _ Hc) E) as [_ [_ [_ [_ [_ [_ [_ [_ I]]]]]]]].
+    destruct (is_exn r) eqn:Ex; simpl; [intros _; apply I; reflexivity|discriminate].
+  - destruct (nth_error (s_handles s) i) as [h|] eqn:En; [|simpl; rewrite En; reflexivity].
+    rewrite (step_do_eq _ _ _ _ En). destruct (locked o && s_wedged s); [reflexivity|].
+    destruct (act o (s_disk s) h) as [[r d'] h'] eqn:E. cbn [fst snd s_disk].
+    pose proof (act_post _ _ _ _ _ _ Hc (Forall_nth _ _ _ _ Hl En) E) as [_ [_ [_ [_ [_ [_ [F [_ I]]]]]]]].
+    unfold failed. intro R. apply orb_prop in R. destruct R as [R|R]; [apply I; exact R|].
+    exfalso. pose proof (act_not_nohandle o (s_disk s) h) as NH. rewrite E in NH. simpl in NH.
+    destruct r; try discriminate.
+    (* act never answers RBlocked *)
+    revert E. clear. intro E. apply (f_equal (fun x => fst (fst x))) in E. simpl in E.
+    pose proof (act_not_blocked o (s_disk s) h). congruence.
+  - reflexivity.
+Qed.
+
+Theorem promote_refused_reach : forall host ops,
+  protocol_ok (create host) ops = true ->
+  let s := run (create host) ops in
+  forall k hk, nth_error (s_handles s) k = Some hk -> h_promoted hk = true ->
+  (forall h0 j, s_wedged s = false -> fst (step s (Load h0 true j)) = RLoaded (length (s_handles s)) false) /\
+  (forall h0 j, s_disk (snd (step s (Load h0 true j))) = s_disk s) /\
+  (forall i, fst (step s (Do i HPromote)) <> RBool true /\ s_disk (snd (step s (Do i HPromote))) = s_disk s).
+Proof.
+  intros host ops Hp s k hk Hk Hpr.
+  destruct (run_role ops _ (create_sinv host) (create_role host) Hp) as [Hs Hr]. fold s in Hs, Hr.
+  destruct (promote_refused s Hs Hr k hk Hk Hpr) as [A B]. split; [|split; [|exact B]].
+  - intros h0 j Hw. rewrite (A h0 j Hw). reflexivity.
+  - intros h0 j. destruct (s_wedged s) eqn:Hw.
+    + rewrite step_load_eq, Hw. reflexivity.
+    + rewrite (A h0 j eq_refl). reflexivity.
+Qed.
+
+Theorem cross_host_demote_reach : forall host ops i h,
+  let s := run (create host) ops in
+  nth_error (s_handles s) i = Some h ->
+  c_submitter (d_cfg (s_disk s)) <> Some (h_host h) ->
+  fst (step s (Do i HDemote)) <> ROk /\ s_disk (snd (step s (Do i HDemote))) = s_disk s.
+Proof. intros host ops i h s. apply cross_host_demote_rejected. apply reach_sinv. Qed.
+
+Theorem alternation_reach : forall host ops, alternates true (trace (create host) ops) = true.
+Proof. intros host ops. apply (alternation ops (create host) (create_sinv host)). Qed.
+
+Theorem single_holder_cli : forall host ops,
+  accepts prog_run_submit (events_of 0%nat (trace (create host) ops)) = true ->
+  (forall i, i <> 0%nat -> exists p, In p cli_programs /\ accepts p (events_of i (trace (create host) ops)) = true) ->
+  role_inv (run (create host) ops).
+Proof. intros host ops H0 Hi. apply single_holder. apply callsites_protocol; auto. Qed.
+
+(* ---------- History: _update_job_status before the fix "reject a stale job-status copy before the
+   cluster config is written": compare-write-compare-write ---------- *)
+Definition update_old (k b : N) (ids : list N) (d : disk) (h : handle) : result * disk * handle :=
+  match h_js h with
+  | None => (RAttrError, d, h)
+  | Some j =>
+    and_then (ser_cfg d (mkH (h_host h) (cfg_with_submitted (h_cfg h) (c_submitted (h_cfg h) + k)) (h_hash h)
+                             (Some (mkJs (j_version j) b ids)) (h_promoted h))) ser_js
+  end.
+
+Definition hist_disk : disk := mkDisk (mkCfg 2 None false false 0) 2 (mkJs 2 2 [11]) 2.
+Definition hist_handle : handle := mkH 1 (mkCfg 2 None false false 0) None (Some (mkJs 1 1 [])) false.
+
+(* the old code wrote the config and then raised JobStatusVersionMismatch ... *)
+Example update_old_partial_write :
+  js_stale hist_disk hist_handle /\
+  fst (fst (update_old 1 7 [99] hist_disk hist_handle)) = RJsMismatch /\
+  snd (fst (update_old 1 7 [99] hist_disk hist_handle)) <> hist_disk.
+Proof.
+  split; [exists (mkJs 1 1 []); split; [reflexivity|discriminate]|]. split; [reflexivity|]. vm_compute. discriminate.
+Qed.
+(* ... the repaired code rejects the same call with every file unchanged *)
+Example update_now_rejects :
+  fst (act (HUpdate 1 7 [99]) hist_disk hist_handle) = (RJsMismatch, hist_disk).
+Proof. reflexivity. Qed.
